@@ -11,6 +11,7 @@ import (
 	"net/url"
 	"runtime/debug"
 	"slices"
+	"strconv"
 	"strings"
 	"time"
 
@@ -85,7 +86,7 @@ func NewDriver(w *WorldJSON, cfg Cfg) *Driver {
 
 func noTok() M {
 	return M{"name": "none", "kind": "none", "client": "none", "sub": "none", "scopes": []string{}, "aud": []string{},
-		"lib": "none", "iss": "none", "jsub": "none", "jclient": "none", "expOK": true, "fresh": true, "sealed": "none"}
+		"lib": "none", "iss": "none", "jsub": "none", "jclient": "none", "expOK": true, "fresh": true, "sealed": "none", "iatAgo": 0, "expiresOff": 0}
 }
 func noRt() M {
 	return M{"name": "none", "client": "none", "sub": "none", "scopes": []string{}, "aud": []string{}, "auth": "none", "root": "none"}
@@ -93,7 +94,7 @@ func noRt() M {
 func noIdt() M {
 	return M{"name": "none", "sub": "none", "aud": []string{}, "azp": "none", "nonce": "none", "iss": "none",
 		"athash": "absent", "chash": "absent", "auth": "none", "sig": "none", "uclaims": []string{},
-		"lib": "none", "life": 0, "fresh": true, "amr": []string{}}
+		"lib": "none", "life": 0, "fresh": true, "amr": []string{}, "iatAgo": 0}
 }
 func NoOut() M {
 	return M{"class": "none", "status": 0, "err": "none", "doc": false, "req": "none", "target": "none", "channel": "none",
@@ -361,6 +362,7 @@ func (d *Driver) atFacts(t M, raw, kind string, st *modelstore.Token) {
 	iat, _ := c["iat"].(float64)
 	t["expOK"] = int64(exp) == st.Expiry.Unix() || int64(exp) == st.Expiry.Unix()+1 || int64(exp) == st.Expiry.Unix()-1
 	t["fresh"] = int64(iat) <= now.Unix()+1 && now.Unix() <= int64(exp)
+	t["iatAgo"] = max(now.Unix()-int64(iat), 0)
 	_ = claims
 }
 
@@ -396,6 +398,15 @@ func (d *Driver) ProjectRT(raw string) M {
 	return t
 }
 
+func (d *Driver) skewOf(client string) time.Duration {
+	d.Store.Lock()
+	defer d.Store.Unlock()
+	if c, ok := d.Store.Clients[client]; ok {
+		return c.Skew
+	}
+	return 0
+}
+
 // ProjectIDT decodes an ID token, checks the signature against the provider's published keys,
 // and reports the claims the properties talk about. at / code are the strings delivered alongside.
 func (d *Driver) ProjectIDT(raw, at, code string) M {
@@ -426,6 +437,7 @@ func (d *Driver) ProjectIDT(raw, at, code string) M {
 	iat, _ := c["iat"].(float64)
 	now := time.Now().Unix()
 	t["life"], t["fresh"] = int64(exp)-int64(iat), int64(iat) <= now+1 && now <= int64(exp)
+	t["iatAgo"] = max(now-int64(iat), 0)
 	switch a := c["aud"].(type) {
 	case string:
 		t["aud"] = []string{a}
@@ -433,7 +445,8 @@ func (d *Driver) ProjectIDT(raw, at, code string) M {
 		t["aud"] = SS(c, "aud")
 	}
 	if v, ok := c["auth_time"].(float64); ok {
-		t["auth"] = fmt.Sprint(int64(v))
+		// auth_time is dated back by the client's clock skew like iat: report the request's own authentication time
+		t["auth"] = fmt.Sprint(int64(v) + int64(d.skewOf(S(c, "azp")).Seconds()))
 	}
 	alg := jose.SignatureAlgorithm(jws.Signatures[0].Header.Algorithm)
 	hashOf := func(claim, over string) string {
@@ -664,10 +677,34 @@ func (d *Driver) authResponse(r *RawResponse, out M) (params url.Values) {
 		out["class"] = "tokens"
 		out["at"] = d.ProjectAT(params.Get("access_token"))
 		out["idt"] = d.ProjectIDT(params.Get("id_token"), params.Get("access_token"), "")
+		if params.Has("access_token") {
+			n, _ := strconv.ParseInt(params.Get("expires_in"), 10, 64)
+			d.expiresOff(out, n)
+		}
 	default:
 		out["class"] = "redirect"
 	}
 	return params
+}
+
+// expiresOff: expires_in agrees with the expiry the store recorded (seconds of disagreement)
+func (d *Driver) expiresOff(out M, expiresIn int64) {
+	at, ok := out["at"].(M)
+	if !ok || S(at, "name") == "none" || S(at, "name") == "unknown" {
+		return
+	}
+	d.Store.Lock()
+	defer d.Store.Unlock()
+	for sid, n := range d.atNm {
+		if st, ok := d.Store.Tokens[sid]; ok && n == S(at, "name") {
+			off := expiresIn - int64(time.Until(st.Expiry).Round(time.Second).Seconds())
+			if off < 0 {
+				off = -off
+			}
+			out["expiresOff"] = off
+			at["expiresOff"] = off
+		}
+	}
 }
 
 // tokenResponse projects a token-endpoint response.
@@ -701,20 +738,7 @@ func (d *Driver) tokenResponse(r *RawResponse, out M, code string) {
 		out["scope"] = strings.Split(body.Scope, " ")
 	}
 	out["expiresIn"] = body.ExpiresIn
-	if at, ok := out["at"].(M); ok && S(at, "name") != "none" && S(at, "name") != "unknown" {
-		// expires_in agrees with the expiry the store recorded (seconds of disagreement)
-		d.Store.Lock()
-		for sid, n := range d.atNm {
-			if st, ok := d.Store.Tokens[sid]; ok && n == S(at, "name") {
-				off := int64(body.ExpiresIn) - int64(time.Until(st.Expiry).Round(time.Second).Seconds())
-				if off < 0 {
-					off = -off
-				}
-				out["expiresOff"] = off
-			}
-		}
-		d.Store.Unlock()
-	}
+	d.expiresOff(out, body.ExpiresIn)
 	if at, ok := out["at"].(M); ok && S(at, "name") != "none" && S(at, "name") != "unknown" {
 		d.Store.Lock()
 		for sid, n := range d.atNm {
